@@ -291,6 +291,94 @@ pub enum E2 {
     C((), ()),
 }
 
+/// hand-written visitors that stop early: a map visitor that reads only the first entry, a sequence visitor
+/// that reads only the first element (serde_json reports what is left over as an error)
+#[derive(PartialEq, Debug, Clone)]
+pub struct FirstEntry(Option<String>);
+impl<'de> Deserialize<'de> for FirstEntry {
+    fn deserialize<D: serde::Deserializer<'de>>(d: D) -> Result<Self, D::Error> {
+        struct V;
+        impl<'de> serde::de::Visitor<'de> for V {
+            type Value = FirstEntry;
+            fn expecting(&self, f: &mut std::fmt::Formatter) -> std::fmt::Result {
+                f.write_str("a map")
+            }
+            fn visit_map<A: serde::de::MapAccess<'de>>(self, mut m: A) -> Result<FirstEntry, A::Error> {
+                match m.next_key::<String>()? {
+                    Some(k) => {
+                        let _: serde::de::IgnoredAny = m.next_value()?;
+                        Ok(FirstEntry(Some(k)))
+                    }
+                    None => Ok(FirstEntry(None)),
+                }
+            }
+        }
+        d.deserialize_map(V)
+    }
+}
+#[derive(PartialEq, Debug, Clone)]
+pub struct FirstElem(Option<i64>);
+impl<'de> Deserialize<'de> for FirstElem {
+    fn deserialize<D: serde::Deserializer<'de>>(d: D) -> Result<Self, D::Error> {
+        struct V;
+        impl<'de> serde::de::Visitor<'de> for V {
+            type Value = FirstElem;
+            fn expecting(&self, f: &mut std::fmt::Formatter) -> std::fmt::Result {
+                f.write_str("a sequence")
+            }
+            fn visit_seq<A: serde::de::SeqAccess<'de>>(self, mut s: A) -> Result<FirstElem, A::Error> {
+                Ok(FirstElem(s.next_element::<i64>()?))
+            }
+        }
+        d.deserialize_seq(V)
+    }
+}
+/// a visitor for "anything" that stops early in maps and sequences (through deserialize_any)
+#[derive(PartialEq, Debug, Clone)]
+pub struct AnyFirst(String);
+impl<'de> Deserialize<'de> for AnyFirst {
+    fn deserialize<D: serde::Deserializer<'de>>(d: D) -> Result<Self, D::Error> {
+        struct V;
+        impl<'de> serde::de::Visitor<'de> for V {
+            type Value = AnyFirst;
+            fn expecting(&self, f: &mut std::fmt::Formatter) -> std::fmt::Result {
+                f.write_str("anything")
+            }
+            fn visit_unit<E>(self) -> Result<AnyFirst, E> { Ok(AnyFirst("unit".into())) }
+            fn visit_bool<E>(self, b: bool) -> Result<AnyFirst, E> { Ok(AnyFirst(format!("bool {}", b))) }
+            fn visit_i64<E>(self, n: i64) -> Result<AnyFirst, E> { Ok(AnyFirst(format!("i64 {}", n))) }
+            fn visit_u64<E>(self, n: u64) -> Result<AnyFirst, E> { Ok(AnyFirst(format!("u64 {}", n))) }
+            fn visit_f64<E>(self, n: f64) -> Result<AnyFirst, E> { Ok(AnyFirst(format!("f64 {}", n))) }
+            fn visit_str<E>(self, s: &str) -> Result<AnyFirst, E> { Ok(AnyFirst(format!("str {}", s))) }
+            fn visit_map<A: serde::de::MapAccess<'de>>(self, mut m: A) -> Result<AnyFirst, A::Error> {
+                match m.next_key::<String>()? {
+                    Some(k) => {
+                        let _: serde::de::IgnoredAny = m.next_value()?;
+                        Ok(AnyFirst(format!("map starting with {}", k)))
+                    }
+                    None => Ok(AnyFirst("empty map".into())),
+                }
+            }
+            fn visit_seq<A: serde::de::SeqAccess<'de>>(self, mut s: A) -> Result<AnyFirst, A::Error> {
+                match s.next_element::<serde::de::IgnoredAny>()? {
+                    Some(_) => Ok(AnyFirst("non-empty sequence".into())),
+                    None => Ok(AnyFirst("empty sequence".into())),
+                }
+            }
+        }
+        d.deserialize_any(V)
+    }
+}
+#[derive(Serialize, Deserialize, PartialEq, Eq, PartialOrd, Ord, Debug, Clone)]
+pub struct KeyNew(String);
+#[derive(Serialize, Deserialize, PartialEq, Eq, PartialOrd, Ord, Debug, Clone)]
+pub enum KeyEnum {
+    #[serde(rename = "a")]
+    A,
+    #[serde(rename = "b")]
+    B,
+}
+
 /// f64 with NaN-free equality for comparison through Debug
 fn dbg<T: std::fmt::Debug>(r: &Result<T, String>) -> String {
     match r {
@@ -381,6 +469,13 @@ macro_rules! all_types {
         $m::<()>("()", $j, $st);
         $m::<Value>("Value", $j, $st);
         $m::<Box<[u8]>>("Box<[u8]>", $j, $st);
+        $m::<FirstEntry>("FirstEntry", $j, $st);
+        $m::<FirstElem>("FirstElem", $j, $st);
+        $m::<AnyFirst>("AnyFirst", $j, $st);
+        $m::<BTreeMap<KeyNew, i32>>("BTreeMap<KeyNew,i32>", $j, $st);
+        $m::<BTreeMap<KeyEnum, i32>>("BTreeMap<KeyEnum,i32>", $j, $st);
+        $m::<BTreeMap<char, i32>>("BTreeMap<char,i32>", $j, $st);
+        $m::<Vec<FirstEntry>>("Vec<FirstEntry>", $j, $st);
     };
 }
 
